@@ -51,6 +51,7 @@ func runC11(c *core.Ctx) {
 	c11R6(c)
 	saltRule(c, "C11.R7")
 	jsonTargetRule(c, "C11.R8", "service/keygen")
+	c03R8(c, "C11.R9")
 }
 
 // errNilPred: the error result (#idx) of call is nil.
